@@ -151,6 +151,19 @@ CHECKS = {
         design_ref="7 C16", technique="TLA+ transcription + laws, TLC exhaustive over small sizes, replay in 4 views",
         note="Elements are int fields / int serialized methods with single-letter names. Ill-formed (dangling / cyclic) "
              "specs: losing elements is the listed known finding F-order-orphans."),
+    "C17": dict(
+        category="model_checking",
+        text="spec/SchemaRefs.tla: the reference-counting pass as a function of the type and the direction (RefCount, "
+             "Refs, Recursive, DiscriminatedMembers; direction-specific field sets: read-only fields only in "
+             "serialization, InitVar only in deserialization). TLC checks AllRefsRule (all_refs = every named type "
+             "reachable), RefsMonotone, OnlyRule (a name is extracted iff referenced more than once, recursive or a "
+             "discriminated member), Terminates over every universe type, and emits (type, direction, names) cases; "
+             "each is replayed on the real generators: $defs names equal, every $ref resolves, 2020-12 / 2019-09 / "
+             "draft-07 outputs valid against their own meta-schema, definitions_schema equal to the inline $defs, "
+             "ref_factory honoured, generation terminates (alarm). Python-side scenarios: name clashes refused, "
+             "type_name overrides, definitions_schema over several entries with a conversion.",
+        design_ref="7 C17", technique="TLA+ model of the ref-counting pass, TLC exhaustive over the universe, replay with meta-schema validation",
+        note="The schema BODY is C06/C07's business; here names, closure, validity, finiteness."),
     "C18": dict(
         category="model_checking",
         text="spec/Dialects.tla: Convert(S, V) transcribes to_json_schema_2019_09 / to_json_schema_7 / to_open_api_3_0 applied at "
